@@ -60,7 +60,7 @@ Definition a_flag : attr := mkA [70] (VBool true) None (Some 1).
 Example tiny_wf : asf_wf tiny = true /\ has_ext tiny = true.
 Proof. vm_compute. split; reflexivity. Qed.
 Example tiny_save_ok : exists f', asf_save tiny [a_title; a_flag] cb_default = Ok f' /\ zlen f' = 1376 /\ asf_wf f' = true.
-Proof. eexists. split; [vm_compute; reflexivity|]. split; vm_compute; reflexivity. Qed.
+Proof. eexists. split; [vm_compute; reflexivity|]. split; [vm_compute; reflexivity|vm_compute; reflexivity]. Qed.
 Example tiny_history :
   asf_wf (fold_left step [OpSave [a_title] (cb_const 3); OpDelete; OpSave [a_flag; a_title] cb_keep; OpDelete] tiny) = true.
 Proof. apply C03_asf_history. vm_compute. reflexivity. Qed.
